@@ -152,6 +152,7 @@ func verifVFSList() []string { return nil } // only environment models call it, 
 func verifTask(name string, notification bool) {}
 func verifSched(explore bool)                     {}
 func verifMapOrder(explore bool)                  {}
+func verifMapReverse(on bool)                     {}
 func verifLockBusy(busy bool)                     {}
 func verifOnLock(f func())                        {}
 `
